@@ -47,6 +47,19 @@ def gen_case(rng, tier):
     if cfg['bits'] >= 20 and rng.random() < 0.4:
         stmts.append({'k': 'org', 'e': ('num', 0x10000 - rng.randint(0, 3))})
         stmts.append({'k': 'data', 'w': 1, 'vals': [('num', rng.randint(0, 255)) for _ in range(rng.randint(1, 8))]})
+    if rng.random() < 0.3:
+        # origins next to muted code: an .org that lands exactly behind muted bytes, and an .org inside a muted block that is
+        # the last origin before emitted bytes - both still say where the following bytes live
+        hi = (1 << cfg['bits']) - 1
+        a = rng.randint(0, max(0, min(hi - 48, 400)))
+        d = lambda n: {'k': 'data', 'w': 1, 'vals': [('num', rng.randint(0, 255)) for _ in range(n)]}  # noqa
+        k = rng.randint(1, 5)
+        if rng.random() < 0.5:
+            g = [{'k': 'org', 'e': ('num', a)}, d(2), {'k': 'mute'}, d(k), {'k': 'unmute'}, {'k': 'org', 'e': ('num', a + 2 + k)}, d(2)]
+        else:
+            g = [{'k': 'org', 'e': ('num', a)}, d(1), {'k': 'mute'}, {'k': 'org', 'e': ('num', a + 20)}, d(k),
+                 {'k': 'org', 'e': ('num', a + 8)}, {'k': 'unmute'}, d(2)]
+        stmts = stmts + g
     # several statements on one source line: each is a statement of its own in every format, also in the listing
     for i in range(len(stmts) - 1):
         if stmts[i]['k'] == 'instr' and stmts[i + 1]['k'] == 'instr' and rng.random() < 0.6:
